@@ -80,15 +80,26 @@ pub struct RawLine {
 }
 
 pub fn stringz_text() -> impl Strategy<Value = String> {
-    prop::collection::vec(
-        prop_oneof![
+    let mixed = prop::collection::vec(
+        crate::pick![
             6 => (0x20u32..0x7F).prop_map(|c| char::from_u32(c).unwrap()),
             1 => prop::sample::select(vec!['\n', '\t', '\r', '\\', '"']),
             1 => prop::sample::select(vec!['é', 'ß', 'λ', '日', '€', '\u{FFFD}', '\u{A0}', '\u{7FF}', '\u{800}', '\u{FFFF}']),
         ],
         0..12,
     )
-    .prop_map(|v| v.into_iter().collect())
+    .prop_map(|v| v.into_iter().collect::<String>());
+    // longer texts made mostly of 2- and 3-byte characters: byte offsets and character counts of
+    // the statement text drift far apart
+    let dense = prop::collection::vec(
+        crate::pick![
+            5 => prop::sample::select(vec!['é', 'ß', 'λ', 'ž', 'ů', 'ň', '日', '本', '€', '\u{7FF}', '\u{800}']),
+            1 => prop::sample::select(vec![' ', 'a', 'k', '!']),
+        ],
+        6..26,
+    )
+    .prop_map(|v| v.into_iter().collect::<String>());
+    crate::pick![8 => mixed, 1 => dense]
 }
 
 pub fn raw_line() -> impl Strategy<Value = RawLine> {
